@@ -273,7 +273,7 @@ def r10_3(ctx: Ctx):
 def r10_4(ctx: Ctx):
     """R10.4 LevelLimit chooses with the direction-aware order and fills exactly the free slots (C08.O4 counting argument)."""
     obs = []
-    for o in c08.o4(ctx) + c08.o5(ctx):
+    for o in c08.o4(ctx, ties_matter=False) + c08.o5(ctx):
         o.rule = "R10.4"
         obs.append(o)
     f = ctx.prog.cls("LevelLimit").methods["__call__"]
